@@ -84,6 +84,11 @@ class RealPair:
                 with L.Patched(urandom=lambda n: L.fit_pad(rnd, n)):
                     self.ps.send_message(self.Message(bytes.fromhex(w[1]) if w[1] != "-" else b""))
                 return hx(self.out_sock.take())
+            elif op == "sendw":
+                rnd = bytes.fromhex(w[2]) if w[2] != "-" else b""
+                msg = self.Message(bytes.fromhex(w[1]) if w[1] != "-" else b"")
+                with L.Patched(urandom=lambda n: L.fit_pad(rnd, n)):
+                    return L.scripted_write(self.out_sock, L.parse_wsched(w[3]), lambda: self.ps.send_message(msg))
             elif op == "feed":
                 self.in_sock.feed(bytes.fromhex(w[1]) if w[1] != "-" else b"")
             elif op == "rem":
@@ -204,7 +209,19 @@ def run_sessions(ctx, Packetizer, Message, n_sessions):
             if isinstance(item, str):
                 emit(item)
             elif item[0] == "send":
-                out = emit("send %s %s" % (hx(item[1]), hx(item[2])))
+                if rng.random() < 0.5:  # write_all under a scripted schedule of send() outcomes
+                    ws = L.gen_wsched(rng, 24 + len(item[1]))
+                    out = emit("sendw %s %s %s" % (hx(item[1]), hx(item[2]), L.wsched_tok(ws)))
+                    ctx.dist("toy:sendw:" + (out.split(" ")[-1] if not out.startswith("err:") else "err"))
+                    if any(isinstance(a, int) and b in ("t", "e") for a, b in zip(ws, ws[1:])):
+                        ctx.dist("toy:sendw:short-write-then-timeout")
+                    if out.endswith(" eof"):
+                        dead = True
+                        continue
+                    if not out.startswith("err:"):
+                        out = out.split(" ")[0]
+                else:
+                    out = emit("send %s %s" % (hx(item[1]), hx(item[2])))
                 if out.startswith("err:"):
                     ctx.dist("toy:send-error:" + out[4:])
                     dead = True
